@@ -2851,9 +2851,15 @@ func (uconn *UConn) ApplyPreset(p *ClientHelloSpec) error {
 	var haveEMS bool
 
 	// reGrease, and point things to each other
-	for _, e := range uconn.Extensions {
+	for i, e := range uconn.Extensions {
 		switch ext := e.(type) {
 		case *SNIExtension:
+			if ext.ServerName == "" || uconn.config.EncryptedClientHelloConfigList != nil {
+				// The name filled in below belongs to this connection: keep it out of
+				// the caller's spec, which may be applied to further connections.
+				ext = &SNIExtension{ServerName: ext.ServerName}
+				uconn.Extensions[i] = ext
+			}
 			if ext.ServerName == "" {
 				ext.ServerName = uconn.config.ServerName
 			}
@@ -2878,6 +2884,11 @@ func (uconn *UConn) ApplyPreset(p *ClientHelloSpec) error {
 				}
 			}
 		case *KeyShareExtension:
+			// The keys generated below belong to this connection (it holds their
+			// private halves): keep them out of the caller's spec, which may be
+			// applied to further connections.
+			ext = &KeyShareExtension{KeyShares: append([]KeyShare(nil), ext.KeyShares...)}
+			uconn.Extensions[i] = ext
 			preferredCurveIsSet := false
 			for i := range ext.KeyShares {
 				curveID := ext.KeyShares[i].Group
@@ -2938,6 +2949,18 @@ func (uconn *UConn) ApplyPreset(p *ClientHelloSpec) error {
 			haveNPN = true
 		case *ExtendedMasterSecretExtension:
 			haveEMS = true
+		case *SessionTicketExtension:
+			if !ext.IsInitialized() {
+				// The session this connection may attach belongs to the connection,
+				// not to the caller's spec (see KeyShareExtension above).
+				c := *ext
+				uconn.Extensions[i] = &c
+			}
+		case *UtlsPreSharedKeyExtension:
+			if !ext.IsInitialized() {
+				c := *ext
+				uconn.Extensions[i] = &c
+			}
 		}
 	}
 
